@@ -116,12 +116,46 @@ Definition ostep (ferr : err) (o : ost) (t : Z * Z * Z) : ost :=
 Definition oracle (exp : list obj) (ferr : err) (calls : list (Z * Z * Z)) : bool :=
   negb (o_bad (fold_left (ostep ferr) calls (mkOst exp false false false false 0 false false))).
 
-Definition check_pbf : P (list Z) :=
+(* decoder.Start failed with error h on the first Header/Scan: every Scan is false, every Header
+   returns h, Err reports h whatever follows (the earlier recorded error wins; nil for io.EOF) *)
+Definition oracle_start_failed (h : err) (calls : list (Z * Z * Z)) : bool :=
+  forallb (fun t => let '(c, a, b) := t in
+             if c =? 0 then a =? 0
+             else if c =? 1 then a =? h
+             else if c =? 2 then
+               (* before the first Header/Scan nothing is recorded yet: handled by the model comparison *)
+               true
+             else true) calls
+  && (let fix go (started closed cancelled : bool) (l : list (Z * Z * Z)) : bool :=
+        match l with
+        | [] => true
+        | (c, a, _) :: r =>
+            if (c =? 0) || (c =? 1) then go true closed cancelled r
+            else if c =? 2 then
+              (if started then a =? (if h =? eEOF then 0 else h)
+               else a =? (if closed then eClosed else if cancelled then eCtx else 0))
+              && go started closed cancelled r
+            else if c =? 3 then go started true cancelled r
+            else if c =? 4 then go started closed true r
+            else go started closed cancelled r
+        end in go false false false calls).
+
+(* tag 4: the reader blocks in Read at block `stall`, then the context is cancelled from another
+   goroutine / its deadline expires while Scan waits: Scan returns (not hung), what was delivered
+   is a prefix of the elements before the stall, Err is the context's error, nothing is left *)
+Definition check_stalled : P (list Z) :=
   n <- pnat ;; resume <- pbool ;; its <- plist (ppair pint pint) ;;
+  stall <- pnat ;; kind <- pint ;; ids <- plist pint ;; e <- pint ;; hung <- pbool ;; leaked <- pint ;;
+  let inp := mk_input 0 0 its in
+  let j2 := negb hung && prefixb ids (expected (firstn stall inp)) && (e =? eCtx) && (leaked =? 0) in
+  ret (code_if j2 2)%list.
+
+Definition check_pbf : P (list Z) :=
+  n <- pnat ;; resume <- pbool ;; hdrerr <- pint ;; its <- plist (ppair pint pint) ;;
   mode <- pint ;; filter <- pint ;; calls <- plist ptriple ;;
   rac <- pint ;; hdrlate <- pint ;; leaked <- pint ;;
   let inp := mk_input filter 0 its in
-  let c := cfg_of_source n inp resume 0 in
+  let c := cfg_of_source n inp resume hdrerr in
   let fuel := (4 * length its + 4 * n + 60)%nat in
   let j1 :=
     if mode =? 0 then
@@ -130,7 +164,9 @@ Definition check_pbf : P (list Z) :=
       ok && outs_match calls outs && done
     else true in
   let j2 :=
-    wf_cfg c && oracle (expected inp) (final_err inp) calls
+    wf_cfg c &&
+    (if hdrerr =? 0 then oracle (expected inp) (final_err inp) calls
+     else oracle_start_failed hdrerr calls)
     && (rac <=? 1) && (hdrlate <=? 1) && (leaked =? 0) in
   ret (code_if j1 1 ++ code_if j2 2)%list.
 
@@ -167,7 +203,7 @@ Definition check_case (t : toks) : list Z :=
   match t with
   | tag :: rest =>
       let p := if tag =? 2 then check_pbf else if tag =? 4 then check_xml
-               else if tag =? 6 then check_xml_cancel else pfail in
+               else if tag =? 6 then check_xml_cancel else if tag =? 8 then check_stalled else pfail in
       match parse_all p rest with Some codes => codes | None => [0] end
   | [] => [0]
   end.
